@@ -457,7 +457,16 @@ func c32walk(r *vrun.Run, maxVisits int, visit func(tr *c32Trans)) *c32Stats {
 				if n >= maxVisits {
 					continue
 				}
-				key := fmt.Sprintf("%v|%s|%d|%d|%d", it.path.NoSlot, nt, tr.After.Cf, tr.After.Ks, n)
+				// Options that change what the finished command must be tagged as (BLOCK, STORE, STOREDIST) are part of the
+				// state: without them a builder that forgets to set the flag would make the path through the option look
+				// like the path around it, and the terminal would only be judged for the latter.
+				hist := ""
+				for _, ps := range append(append([]c32Step{}, it.path.Steps...), step) {
+					if (ps.M == "Block" || ps.M == "Store" || ps.M == "Storedist") && !strings.Contains(hist, ps.M+";") {
+						hist += ps.M + ";"
+					}
+				}
+				key := fmt.Sprintf("%v|%s|%d|%d|%d|%s", it.path.NoSlot, nt, tr.After.Cf, tr.After.Ks, n, hist)
 				expanded = true
 				if seen[key] {
 					continue
@@ -721,7 +730,7 @@ func c32viaBlock(p c32Path, s c32Step) bool {
 
 func TestVerif_C32(t *testing.T) {
 	vrun.Main(t, "C32", func(r *vrun.Run) {
-		r.Rule = "BFS by reflection over the builder type graph from every exported method of cmds.Builder (InitSlot and NoSlot builders); every exported method of every reachable step type is invoked with every canned value class of each parameter type; states deduplicated by (builder kind, type, flag word, slot word, #previous visits of the type on the path), a type may repeat at most maxVisits times on a path; each Build()/Cache() terminal is compared with a hand written classification (known reads / known writes / blocking / subscribe / unsubscribe) keyed by command name. non-trivial = terminals of read-only, blocking or pub/sub commands (distinct by command and terminal type)"
+		r.Rule = "BFS by reflection over the builder type graph from every exported method of cmds.Builder (InitSlot and NoSlot builders); every exported method of every reachable step type is invoked with every canned value class of each parameter type; states deduplicated by (builder kind, type, flag word, slot word, #previous visits of the type on the path, which of the semantic options Block/Store/Storedist the path went through), a type may repeat at most maxVisits times on a path; each Build()/Cache() terminal is compared with a hand written classification (known reads / known writes / blocking / subscribe / unsubscribe) keyed by command name. non-trivial = terminals of read-only, blocking or pub/sub commands (distinct by command and terminal type)"
 		maxVisits := vrun.Pick(r, 2, 3)
 		r.Bounds["max_visits_of_a_type_per_path"] = maxVisits
 		r.Assume("the classification table in this file (written from the Redis/Valkey/Redis-Stack command reference) is right for the commands it lists; commands it does not list are unclassified and never alarm")
